@@ -388,3 +388,29 @@ func VerifTSKeyFrameParamSets() {
 	}
 	symapi.Reach("end")
 }
+
+// VerifTSAacFrames: every audio frame the AAC packetizer hands on carries the ADTS header
+// of its OWN payload, and keeps it when later frames are packetized (the HLS segment
+// generator holds on to the first frame of a ~100 ms batch while more frames arrive).
+func VerifTSAacFrames() {
+	rec := &verifFrameRec{}
+	meta := &codec.AudioMeta{Codec: "AAC", SampleRate: 44100, Channels: 2, Sps: []byte{0x12, 0x10}}
+	p := NewAacPacketizer(meta, rec)
+	n1 := symapi.IntRange("n1", 1, 3)
+	n2 := symapi.IntRange("n2", 1, 3)
+	f1 := &codec.Frame{MediaType: codec.MediaTypeAudio, Payload: symapi.Bytes("a", n1), Pts: 1000000000, Dts: 1000000000}
+	f2 := &codec.Frame{MediaType: codec.MediaTypeAudio, Payload: symapi.Bytes("b", n2), Pts: 1023219954, Dts: 1023219954}
+	symapi.Assert(p.Packetize(f1) == nil && p.Packetize(f2) == nil, "packetize-ok")
+	symapi.Assert(len(rec.frames) == 2, "two-ts-frames")
+	for i, n := range []int{n1, n2} {
+		tf := rec.frames[i]
+		symapi.Assert(tf.Pid == tsAudioPid && tf.StreamID == tsAudioAac, "audio-pid-stream-id")
+		h := tf.Header
+		symapi.Assert(len(h) == 7 && h[0] == 0xff && h[1]&0xf0 == 0xf0, "adts-header-present")
+		fl := int(h[3]&3)<<11 | int(h[4])<<3 | int(h[5]>>5)
+		symapi.Assert(fl == n+7, "each-frame-keeps-the-adts-length-of-its-own-payload")
+		symapi.Assert(len(tf.Payload) == n, "payload-handed-through")
+	}
+	symapi.Assert(rec.frames[0].Pts == 90000 && rec.frames[1].Pts == 1023219954*9/100000, "90khz-conversion")
+	symapi.Reach("end")
+}
